@@ -6,6 +6,7 @@ import ParryModel.C16.Theorems2
 import ParryModel.C16.Theorems3
 import ParryModel.C16.Theorems4
 import ParryModel.C16.Theorems5
+import ParryModel.C16.Theorems6
 /-!
 # C16 property theorems: ear clipping and Hertel–Mehlhorn, for every linearly ordered field.
 
